@@ -1,7 +1,65 @@
 import GluonModel.Sexp
-open GluonModel
+import GluonModel.Prims
+import GluonModel.Frames
+open GluonModel GluonModel.Prims GluonModel.RustStd
 
+def strBytes (s : String) : Bytes := s.toUTF8.toList.map (·.toNat)
+
+def bytesStr (b : Bytes) : String :=
+  match String.fromUTF8? (ByteArray.mk (b.map (fun n => UInt8.ofNat n)).toArray) with
+  | some s => s
+  | none => "<invalid utf8>"
+
+def ints (xs : List Sexp) : Option (List Int) := xs.mapM Sexp.toInt?
+
+def parseArg : Sexp → Option Val
+  | .list [.atom "i", n] => n.toInt?.map .int
+  | .list [.atom "b", n] => n.toInt?.map .byte
+  | .list [.atom "f", n] => n.toNat?.map .float
+  | .list [.atom "s", .str s] => some (.str (strBytes s))
+  | .list [.atom "c", n] => n.toInt?.map .char
+  | .list [.atom "u"] => some .unit
+  | .list (.atom "ai" :: xs) => (ints xs).map .arrI
+  | .list (.atom "ab" :: xs) => (ints xs).map .arrB
+  | .list [.atom "x", .atom t] =>
+    if t.startsWith "sb:" then some (.sbuf (strBytes (t.drop 3).toString)) else some (.opaque t)
+  | _ => none
+
+partial def renderRes : Res → String
+  | .i n => s!"(i {n})"
+  | .b n => s!"(b {n})"
+  | .s bs => "(s " ++ Sexp.quote (bytesStr bs) ++ ")"
+  | .d t fs => "(d " ++ toString t ++ String.join (fs.map fun f => " " ++ renderRes f) ++ ")"
+  | .a es => "(a" ++ String.join (es.map fun f => " " ++ renderRes f) ++ ")"
+  | .opaque => "opaque"
+
+def handlePrim (name : String) (mode : String) (args : List Sexp) : String :=
+  match args.mapM parseArg with
+  | none => "bad-args"
+  | some vs =>
+    match outcome name vs with
+    | .ok r => if mode == "v" then "(ok " ++ renderRes r ++ ")" else "ok"
+    | .err => "err"
+    | .abort => "abort"
+    | .illTyped => "ill-typed"
+    | .unmodelled => "unmodelled"
+
+open GluonModel.Frames in
+def parseStep : Sexp → Option Step
+  | .list [.atom "ok", d, v] => do pure (.ok (← d.toNat?) (← v.toNat?))
+  | .list [.atom "fail", d, v] => do pure (.fail (← d.toNat?) (← v.toNat?))
+  | _ => none
+
+open GluonModel.Frames in
 def handle : List Sexp → String
-  | _ => "unimplemented"
+  | .atom "prim" :: .str name :: .atom mode :: args => handlePrim name mode args
+  | [.atom "hist", .atom which, .list steps] =>
+    match steps.mapM parseStep with
+    | none => "bad-steps"
+    | some ss =>
+      let reset := if which == "fixed" then resetFixed else resetStack
+      let st := runHistory reset ss Stack.base
+      s!"(frames {st.frames.length} values {st.values})"
+  | _ => "bad-request"
 
 def main : IO Unit := driverLoop handle
